@@ -41,8 +41,8 @@ _i12 = st.integers(1, 2)
 FRAC = {'sparse': nice(0.05, 0.45, 4), 'targeted': nice(0.15, 0.45, 4), 'faces': nice(0.05, 1.6, 4),
         'binedge': nice(0.1, 0.8, 4), 'dense': nice(0.2, 1.6, 4), 'cluster': nice(0.1, 0.6, 4)}
 QUADS = [((1, 0, 0), 1), ((3, 4, 0), 5), ((1, 2, 2), 3), ((2, 3, 6), 7), ((4, 4, 7), 9), ((1, 4, 8), 9), ((2, 6, 9), 11),
-         ((6, 6, 7), 11), ((0, 0, 0), 0)]
-_quad = st.sampled_from(QUADS[:-1])
+         ((6, 6, 7), 11)]
+_quad = st.sampled_from(QUADS)
 _perm = st.permutations([0, 1, 2])
 _signs = st.lists(st.sampled_from([1, -1]), min_size=3, max_size=3)
 _len4 = st.integers(4, 48).map(lambda k: k / 4.0)
